@@ -1103,7 +1103,7 @@ func c19Equal(exp, got *c19C, path string, top bool) *c19Diff {
 			}
 			if d := c19Equal(exp.O[k], g, fmt.Sprintf("%s.%+q", path, k), false); d != nil {
 				if top && strings.HasPrefix(k, "_") {
-					d.Class = "underscore-key-altered:" + k + ":" + d.Class
+					d.Class = "underscore-key-altered:" + d.Class // (the key is in the diff path)
 				}
 				return d
 			}
